@@ -75,7 +75,13 @@ func (r *Runner) RunCrashCase(c *Case, prefixFolder string, ref Ref, created []b
 		o.Class = "after"
 	default:
 		o.Class = "mixed"
-		add("neither-all-nor-nothing", fmt.Sprintf("after a crash at %s the stores show neither the state before (%s) nor after (%s) the transaction", o.Site, whyB, whyA))
+		if hidden := hiddenByZeroCount(o.Dump, before); len(hidden) > 0 {
+			// every store that departs from the before-state reads EMPTY with a persisted Count of 0: the count
+			// was written ahead of the flip, and First/Find/Next answer false on Count == 0 without looking at the tree
+			add("items-hidden-by-zero-count", fmt.Sprintf("after a crash at %s store(s) %v read empty (persisted Count=0, B-tree calls short-circuit on Count == 0) although their nodes still hold the pre-transaction items; the other stores show the state before the transaction", o.Site, hidden))
+		} else {
+			add("neither-all-nor-nothing", fmt.Sprintf("after a crash at %s the stores show neither the state before (%s) nor after (%s) the transaction", o.Site, whyB, whyA))
+		}
 	}
 	if o.Class == "before" || o.Class == "after" || o.Class == "mixed" {
 		for _, n := range o.Dump.Names {
@@ -296,7 +302,15 @@ func classifyCrash(sig string, o *CrashOutcome) string {
 			return sig + "/actively-persisted-values"
 		}
 	}
-	return sig + "/" + crashWindow(o.Site)
+	w := crashWindow(o.Site)
+	if sig == "items-hidden-by-zero-count" {
+		// one defect wherever the process dies between the count update and the completion of the flip
+		switch w {
+		case "during-count-update", "after-count-update-before-flip", "after-count-update-before-flip-or-just-after-flip", "torn-phase2-flip":
+			w = "count-written-flip-not-complete"
+		}
+	}
+	return sig + "/" + w
 }
 
 // crashWindow names the window of the commit the process died in.
@@ -340,4 +354,32 @@ func crashWindow(site string) string {
 		}
 	}
 	return "at:" + site
+}
+
+// hiddenByZeroCount: the stores of got that differ from want are exactly stores that read empty with Count 0 while
+// want holds items in them; every other store equals want. Returns their names (nil if that is not the situation).
+func hiddenByZeroCount(got, want *sopx.Dump) []string {
+	if got.Err != "" || fmt.Sprint(got.Names) != fmt.Sprint(want.Names) {
+		return nil
+	}
+	var hidden []string
+	for _, n := range got.Names {
+		x, y := got.Stores[n], want.Stores[n]
+		if x.Err != "" {
+			return nil
+		}
+		same := len(x.Keys) == len(y.Keys)
+		for i := 0; same && i < len(x.Keys); i++ {
+			same = x.Keys[i] == y.Keys[i] && x.Vals[i] == y.Vals[i]
+		}
+		if same {
+			continue
+		}
+		if len(x.Keys) == 0 && x.Count == 0 && len(y.Keys) > 0 {
+			hidden = append(hidden, n)
+			continue
+		}
+		return nil
+	}
+	return hidden
 }
